@@ -16,7 +16,7 @@ Not decided: PSD preservation numerically, ellipse reconstruction to rounding, c
 import math
 import sympy as sp
 from .. import sym, mat
-from ..tree import sx, walk, pp, strip_casts, short_fn
+from ..tree import const_value, sx, walk, pp, strip_casts, short_fn
 from .C20 import deep_unwrap
 from .C14 import stmts_sx
 from .C12 import PoseHook
@@ -434,6 +434,20 @@ def check_ellipse(fx, R):
                 R.violated('K4', 'Ellipse(covariance):axes', 'major radius is taken from singular value 1 and minor from 0 (decreasing order: 0 is the largest)', loc, 'E-SIB')
             elif ori in (('atan2', vec_(1, 1), vec_(0, 1)),) and maj == ('*', ('sqrt', val(0)), 'sigmaScale'):
                 R.violated('K4', 'Ellipse(covariance):axes', 'orientation is read from column 1 of U while the major radius uses singular value 0', loc, 'E-SIB')
+            elif maj == ('*', ('sqrt', val(0)), 'sigmaScale') and isinstance(mnr, tuple) and mnr[0] == '?:' and len(mnr) == 4 and ('.rank', sv) in (mnr[1][1:] if isinstance(mnr[1], tuple) else ()):
+                # minor radius forced to a constant when the decomposition reports rank <= 1: Eigen's rank() counts the singular values above
+                # threshold * (largest one); the quantifier has covariances with condition number up to 1e8
+                thr = None
+                for x_ in walk(f['body']):
+                    if isinstance(x_, dict) and x_.get('k') == 'MCall' and x_.get('m') == 'setThreshold' and x_.get('args'):
+                        thr = const_value(x_['args'][0])
+                alt = mnr[3] if mnr[2] == ('*', ('sqrt', val(1)), 'sigmaScale') else None
+                if isinstance(thr, float) and thr * 1e8 > 1 and alt is not None:
+                    R.violated('K4', 'Ellipse(covariance):rank-threshold', 'the minor radius is %s unless svd.rank() > 1, and the decomposition was given the threshold %g: rank() counts singular values above %g times the '
+                               'largest, so every full-rank covariance with condition number above %.3g - the quantifier goes to 1e8 - is declared rank 1 and loses its minor axis: R diag(major^2, minor^2) R^T / sigma^2 '
+                               'no longer reproduces it' % (alt, thr, thr, 1 / thr), loc, 'E-INT')
+                else:
+                    R.undecided('K4', 'Ellipse(covariance):axes', 'minor radius depends on svd.rank() (threshold %s): not decided' % thr)
             else:
                 R.undecided('K4', 'Ellipse(covariance):axes', 'index pattern not recognised: major %s minor %s orientation %s' % (maj, mnr, ori))
         R.holds('K4', 'Ellipse(covariance):sqrt-domain', 'square roots of singular values (non-negative by construction)', loc, 'E-INT')
